@@ -43,11 +43,12 @@ pub fn client_args(rng: &mut Rng, port: u16, proto: P, key: Option<&[u8]>, n: u3
         a.push(key_text(rng, k));
     }
     // -z alone, -f alone, and both together (the UTC and the local branch each format the time)
-    let shape = rng.below(4);
-    if shape != 1 {
+    // ... and neither: the local time in the default format
+    let shape = rng.below(5);
+    if shape != 1 && shape != 4 {
         a.push("-z".into());
     }
-    if shape != 0 {
+    if shape != 0 && shape != 4 {
         a.push("-f".into());
         a.push((*rng.pick(&["%Y-%m-%d %H:%M:%S.%f", "%Y-%m-%d %H:%M:%S.%f", "%s.%6f", "%H:%M:%S%.3f %d %b %Y", "%s %9f", "%Y%m%d %H%M%S%.6f", "%s%.9f|%3f"])).to_string());
     }
@@ -66,6 +67,7 @@ fn gen_position(seed: u64, k: u64) -> Plan {
     let mut rng = Rng::derive(seed, "c03-pos");
     let mut plan = Plan::new("C03", "c03.every_batch_position", seed);
     world_knobs(&mut rng, &mut plan, false);
+    pick_zone(&mut rng, &mut plan);
     let key_opt = k % 4;
     let proto = if (k / 4) % 2 == 0 { P::Classic } else { P::Ietf };
     let mut pos = k / 8; // 0..127
@@ -77,7 +79,7 @@ fn gen_position(seed: u64, k: u64) -> Plan {
     plan.params.insert("depth".into(), depth as i64);
     plan.params.insert("index".into(), pos as i64);
     let port = 4000 + rng.below(1000) as u16;
-    let slot = SlotSpec { index: pos as u32, depth, midp_secs: pick_midp_secs(&mut rng), midp_sub_us: rng.below(1_000_000) as u32, forgeries: vec![], sibling_seed: rng.next_u64(), delay_us: 0, window: (rng.below(5)) as u8 };
+    let slot = SlotSpec { index: pos as u32, depth, midp_secs: pick_midp_secs(&mut rng), midp_sub_us: rng.below(1_000_000) as u32, forgeries: vec![], sibling_seed: rng.next_u64(), delay_us: 0, window: (rng.below(5)) as u8, no_nonc: rng.chance(1, 4) };
     let spec = RefServerSpec { port, long_seed: rng.next_u64(), online_seed: rng.next_u64(), slots: vec![slot] };
     let pk = {
         let mut s = [0u8; 32];
@@ -108,6 +110,7 @@ fn gen(seed: u64, idx: u64, _tier: Tier) -> Plan {
     let real = idx % 3 == 2;
     let mut plan = Plan::new("C03", if real { "c03.real_server" } else { "c03.reference_server" }, seed);
     world_knobs(&mut rng, &mut plan, false);
+    pick_zone(&mut rng, &mut plan);
     plan.world.rcv_cap = 4096;
     let proto = if rng.chance(1, 2) { P::Ietf } else { P::Classic };
     let n = 1 + rng.below(8) as u32;
@@ -142,7 +145,7 @@ fn gen(seed: u64, idx: u64, _tier: Tier) -> Plan {
         for _ in 0..n {
             let depth = rng.below(7) as u32;
             let sub_any = rng.below(1_000_000) as u32;
-            slots.push(SlotSpec { index: rng.below(64) as u32, depth, midp_secs: pick_midp_secs(&mut rng), midp_sub_us: *rng.pick(&[0u32, 1, 999, 1000, 999_999, sub_any]), forgeries: vec![], sibling_seed: rng.next_u64(), delay_us: rng.below(2000), window: *rng.pick(&[0u8, 0, 1, 2, 3, 4]) });
+            slots.push(SlotSpec { index: rng.below(64) as u32, depth, midp_secs: pick_midp_secs(&mut rng), midp_sub_us: *rng.pick(&[0u32, 1, 999, 1000, 999_999, sub_any]), forgeries: vec![], sibling_seed: rng.next_u64(), delay_us: rng.below(2000), window: *rng.pick(&[0u8, 0, 1, 2, 3, 4]), no_nonc: rng.chance(1, 4) });
         }
         let spec = RefServerSpec { port, long_seed: rng.next_u64(), online_seed: rng.next_u64(), slots };
         let pk = {
@@ -158,13 +161,29 @@ fn gen(seed: u64, idx: u64, _tier: Tier) -> Plan {
     plan
 }
 
-fn expected_line(argv: &[String], proto: r::Proto, midp: u64) -> String {
+/// Time zones a machine may be set to, as fixed-offset POSIX strings, with their offset east of
+/// UTC in seconds.
+pub const ZONES: [(&str, i64); 7] = [("UTC", 0), ("JST-9", 32_400), ("IST-5:30", 19_800), ("EST5", -18_000), ("NST3:30", -12_600), ("<+14>-14", 50_400), ("<-12>12", -43_200)];
+
+pub fn pick_zone(rng: &mut Rng, plan: &mut Plan) {
+    if rng.chance(1, 2) {
+        plan.world.tz = Some(ZONES[rng.below(ZONES.len() as u64) as usize].0.to_string());
+    }
+}
+
+fn expected_line(argv: &[String], proto: r::Proto, midp: u64, tz: Option<&str>) -> String {
     let (secs, nanos) = match proto {
         r::Proto::Classic => (midp / 1_000_000, ((midp % 1_000_000) * 1000) as u32),
         r::Proto::Ietf => (midp, 0),
     };
     let fmt = arg_value(argv, "-f").unwrap_or("%b %d %Y %H:%M:%S %Z");
-    r::time::format_utc(secs, nanos, fmt)
+    if has_flag(argv, "-z") {
+        return r::time::format_utc(secs, nanos, fmt);
+    }
+    // the local clock: the same instant at the machine's offset; chrono prints a local %Z as +hh:mm
+    let off = ZONES.iter().find(|z| Some(z.0) == tz).map(|z| z.1).unwrap_or(0);
+    let zone = format!("{}{:02}:{:02}", if off < 0 { '-' } else { '+' }, off.abs() / 3600, off.abs() % 3600 / 60);
+    r::time::format_at(secs, nanos, fmt, off, &zone)
 }
 
 fn check(plan: &Plan, out: &RunOut) -> CheckOut {
@@ -196,7 +215,7 @@ fn check(plan: &Plan, out: &RunOut) -> CheckOut {
                 Some(m) => m,
                 None => continue,
             };
-            let want = expected_line(&cr.argv, proto, midp);
+            let want = expected_line(&cr.argv, proto, midp, plan.world.tz.as_deref());
             let (shown, verified_shown): (String, Option<bool>) = if has_flag(&cr.argv, "-j") {
                 // { "midpoint": "<text>", "radius": 5, "verified": true, "merkle_index": 0 }
                 let v: Option<serde_json::Value> = serde_json::from_str(line).ok();
